@@ -3,6 +3,8 @@
   read-back of the particle table from each model's file, the user-composition fold.
 -/
 import TamocV.Model.SaveLoad
+import TamocV.Real
+import TamocV.Lemmas.Basic
 import Mathlib.Data.List.Basic
 import Mathlib.Data.List.Nodup
 set_option linter.unusedSimpArgs false
@@ -725,5 +727,246 @@ theorem saveTable_forget (pt : Nat) (chem : List String) (ps : List (Particle α
     saveTable pt chem (ps.map Particle.forget) KT0 = saveTable pt chem ps KT0 := by
   simp only [saveTable, saveOk_forget, mkTable_forget]
 end
+
+theorem lookup_mapVal {β : Type} (l : List (String × β)) (g : String → β → β) (n : String) :
+    (mapVal l g).lookup n = (l.lookup n).map (g n) := by
+  induction l with
+  | nil => rfl
+  | cons e es ih =>
+    obtain ⟨k, v⟩ := e
+    simp only [mapVal, List.map_cons, List.lookup_cons] at ih ⊢
+    by_cases h : n == k
+    · have : n = k := by simpa using h
+      subst this
+      simp
+    · simp only [h]
+      exact ih
+
+theorem lookup_append_single {β : Type} (l : List (String × β)) (k n : String) (b : β) :
+    (l ++ [(k, b)]).lookup n = match l.lookup n with
+      | some x => some x
+      | none => if n == k then some b else none := by
+  induction l with
+  | nil => cases h : n == k <;> simp [List.lookup, h]
+  | cons e es ih =>
+    obtain ⟨k', v⟩ := e
+    simp only [List.cons_append, List.lookup_cons]
+    by_cases h : n == k'
+    · simp [h]
+    · simp only [h]
+      exact ih
+
+theorem lookup_setAttr_ne (as : List (String × AttrVal α)) (k n : String) (v : AttrVal α) (h : n ≠ k) :
+    (setAttr as k v).lookup n = as.lookup n := by
+  unfold setAttr
+  have hb : (n == k) = false := by simpa using h
+  split
+  · have := lookup_mapVal as (fun key w => if key == k then v else w) n
+    have hm : (as.map fun a => if (a.1 == k) = true then (k, v) else a) = mapVal as (fun key w => if key == k then v else w) := by
+      unfold mapVal
+      apply List.map_congr_left
+      intro a _
+      by_cases ha : a.1 == k
+      · have : a.1 = k := by simpa using ha
+        simp [ha, this]
+      · simp [ha]
+    rw [hm, this]
+    cases as.lookup n <;> simp [hb]
+  · rw [lookup_append_single]
+    cases as.lookup n <;> simp [hb]
+
+section
+variable [Num α]
+
+/-- variable `c.name` holds the column: its values and its units -/
+def Holds (vars : List (String × Var α)) (c : Col α) : Prop :=
+  ∃ v, vars.lookup c.name = some v ∧ v.data = .f1 (c.vals.map some) ∧ v.attrs.lookup "units" = some (.s c.units)
+
+theorem fillVar_holds (vars vars' : List (String × Var α)) (c : Col α) (l s : String)
+    (h : fillVar vars c l s = some vars') : Holds vars' c := by
+  unfold fillVar at h
+  cases hv : vars.lookup c.name with
+  | none =>
+    simp only [hv] at h
+    cases h
+    refine ⟨⟨"f8", ["z"], .f1 (c.vals.map some), va l s c.units ++ coordAttr ++ [("comment", .s c.comment)]⟩, ?_, rfl, ?_⟩
+    · rw [lookup_append_single, hv]; simp
+    · simp [va, coordAttr, List.lookup]
+  | some v =>
+    simp only [hv] at h
+    cases hu : v.attrs.lookup "units" with
+    | none => simp [hu] at h
+    | some a =>
+      cases a with
+      | s u =>
+        simp only [hu] at h
+        by_cases he : u == c.units
+        · simp only [he, if_true] at h
+          cases h
+          refine ⟨{ v with data := .f1 (c.vals.map some), attrs := setAttr v.attrs "comment" (.s c.comment) }, ?_, rfl, ?_⟩
+          · rw [lookup_mapVal, hv]; simp
+          · rw [lookup_setAttr_ne _ _ _ _ (by decide), hu]
+            have : u = c.units := by simpa using he
+            rw [this]
+        · simp [he] at h
+      | names x => simp [hu] at h
+      | n x => simp [hu] at h
+      | f x => simp [hu] at h
+
+theorem fillVar_other (vars vars' : List (String × Var α)) (c : Col α) (l s n : String)
+    (h : fillVar vars c l s = some vars') (hn : n ≠ c.name) : vars'.lookup n = vars.lookup n := by
+  have hb : (n == c.name) = false := by simpa using hn
+  unfold fillVar at h
+  cases hv : vars.lookup c.name with
+  | none =>
+    simp only [hv] at h
+    cases h
+    rw [lookup_append_single]
+    cases vars.lookup n <;> simp [hb]
+  | some v =>
+    simp only [hv] at h
+    cases hu : v.attrs.lookup "units" with
+    | none => simp [hu] at h
+    | some a =>
+      cases a with
+      | s u =>
+        simp only [hu] at h
+        by_cases he : u == c.units
+        · simp only [he, if_true] at h
+          cases h
+          rw [lookup_mapVal]
+          cases vars.lookup n <;> simp [hb]
+        · simp [he] at h
+      | names x => simp [hu] at h
+      | n x => simp [hu] at h
+      | f x => simp [hu] at h
+
+theorem holds_congr (vars vars' : List (String × Var α)) (c : Col α)
+    (h : vars'.lookup c.name = vars.lookup c.name) (hc : Holds vars c) : Holds vars' c := by
+  obtain ⟨v, h1, h2, h3⟩ := hc
+  exact ⟨v, h.trans h1, h2, h3⟩
+
+theorem fillCols_holds (cols : List (Col α)) (vars vars' : List (String × Var α))
+    (h : fillCols vars cols = some vars') (hnd : (cols.map (·.name)).Nodup) :
+    (∀ c ∈ cols, Holds vars' c) ∧ ∀ n, n ∉ cols.map (·.name) → vars'.lookup n = vars.lookup n := by
+  induction cols generalizing vars with
+  | nil =>
+    simp only [fillCols, List.foldlM_nil] at h
+    cases h
+    exact ⟨by simp, fun _ _ => rfl⟩
+  | cons c cs ih =>
+    simp only [fillCols, List.foldlM_cons] at h
+    cases h1 : fillVar vars c (pyCapitalize (stdName c.name)) (stdName c.name) with
+    | none => simp [h1] at h
+    | some v1 =>
+      simp only [h1] at h
+      simp only [List.map_cons, List.nodup_cons] at hnd
+      obtain ⟨ihA, ihB⟩ := ih v1 h hnd.2
+      constructor
+      · intro d hd
+        rcases List.mem_cons.mp hd with rfl | hd
+        · exact holds_congr v1 vars' d (ihB _ hnd.1) (fillVar_holds _ _ _ _ _ h1)
+        · exact ihA d hd
+      · intro n hn
+        simp only [List.map_cons, List.mem_cons, not_or] at hn
+        rw [ihB n hn.2]
+        exact fillVar_other _ _ _ _ _ n h1 hn.1
+
+theorem setValid_holds (vars : List (String × Var α)) (z c : Col α) (hc : Holds vars c) :
+    Holds (setValid vars z) c := by
+  obtain ⟨v, h1, h2, h3⟩ := hc
+  unfold setValid
+  by_cases hk : c.name == z.name
+  · refine ⟨{ v with attrs := setAttr (setAttr v.attrs "valid_min" (.f (minL z.vals))) "valid_max" (.f (maxL z.vals)) },
+      by rw [lookup_mapVal, h1]; simp [hk], h2, ?_⟩
+    rw [lookup_setAttr_ne _ _ _ _ (by decide), lookup_setAttr_ne _ _ _ _ (by decide)]
+    exact h3
+  · exact ⟨v, by rw [lookup_mapVal, h1]; simp [hk], h2, h3⟩
+
+/-- reading a held column back -/
+theorem loadCol_of_holds (f : File α) (c : Col α) (h : Holds f.vars c) :
+    (c.name, f.vattrS c.name "units", (f.f1 c.name).map valF) = (c.name, c.units, c.vals) := by
+  obtain ⟨v, h1, h2, h3⟩ := h
+  rcases v with ⟨dt, dims, data, attrs⟩
+  simp only at h2 h3
+  subst h2
+  simp only [File.vattrS, File.f1, h1, h3, map_valF_some]
+
+end
+
+section
+variable [Num α]
+
+/-- every particle of the list is well formed (see `ParticleWF`) -/
+def ListWF (pt : Nat) (chem ucomp : List String) (Ta : α) (ps : List (Particle α)) : Prop :=
+  ∀ p ∈ ps, ParticleWF pt chem ucomp Ta p
+
+/-- the definition uses none of the fields the writer drops -/
+def NoLoss (p : Particle α) : Prop := p.forget = p
+
+theorem saveBpm_eq (h : Header) (s : Bpm α) (f : File α) (hs : saveBpm h s = some f) :
+    ∃ c tbl, s.cj.getLast? = some c ∧ saveTable 2 s.chem_names s.particles s.K_T0 = some tbl ∧
+      f = (header h).add ((bpmOwn s c).add (tbl.toFile 2)) := by
+  unfold saveBpm at hs
+  cases hc : s.cj.getLast? with
+  | none => simp [hc] at hs
+  | some c =>
+    simp only [hc] at hs
+    obtain ⟨tbl, h1, h2⟩ := Option.map_eq_some_iff.mp hs
+    exact ⟨c, tbl, rfl, h1, h2.symm⟩
+
+theorem forget_K_T' (p : Particle α) : p.forget.K_T = p.K_T := rfl
+
+theorem list3 (X : List α) (h : X.length = 3) : [X[0]?.getD 0, X[1]?.getD 0, X[2]?.getD 0] = X := by
+  match X, h with
+  | [a, b, c], _ => rfl
+
+theorem saveSpm_eq (h : Header) (s : Spm α) (f : File α) (hs : saveSpm h s = some f) :
+    ∃ tbl, saveTable 1 s.chem_names s.particles s.K_T0 = some tbl ∧
+      f = (header h).add ((spmOwn s).add (tbl.toFile 1)) := by
+  unfold saveSpm at hs
+  obtain ⟨tbl, h1, h2⟩ := Option.map_eq_some_iff.mp hs
+  exact ⟨tbl, h1, h2.symm⟩
+
+end
+
+/-! ### ℝ: helpers and the witnesses of the losses -/
+
+theorem isZero_real (x : ℝ) : isZero x = decide (x = 0) := by
+  unfold isZero
+  simp only [Num.real_zero]
+  by_cases h : x = 0
+  · subst h; simp
+  · have : ¬ (x ≤ 0 ∧ 0 ≤ x) := fun ⟨a, b⟩ => h (le_antisymm a b)
+    simp [h, this]
+
+theorem sum_map_div (l : List ℝ) (s : ℝ) : (l.map (· / s)).sum = l.sum / s := by
+  induction l with
+  | nil => simp
+  | cons x xs ih => simp [ih, add_div]
+
+theorem sum_zeros_row (m : Nat) : (List.replicate m (0 : ℝ)).sum = 0 := by simp
+
+noncomputable def wUser : UserChem ℝ :=
+  ⟨"methane", [0.016043, 4599000, 190.56, 9.86e-5, 111.66, 3.77e-5, 0.011, 2.2689e-7, 1575.558872, 3.47e-5,
+               -0.009999, -41863.8, 0.000127], some 1e-6, some 100, some 1e-6, some 1e-8⟩
+
+/-- FluidParticle(['methane','ethane'], delta=[[0,.05],[.05,0]], user_data={'methane': {…, 'k_bio': 1e-6,
+    't_bio': 100, 'C_pen': 1e-6, 'C_pen_T': 1e-8}}) -/
+noncomputable def wFluid : Fluid ℝ :=
+  { composition := ["methane", "ethane"], fp_type := 0, isair := false, sigma := 1, calc_delta := -1,
+    delta_groups := zeros 2 15, delta := [[0, 0.05], [0.05, 0]], user_data := [wUser] }
+
+noncomputable def wBase (d : Dbm ℝ) (m0 : List ℝ) (lag : Bool) : Particle ℝ :=
+  { dbm := d, m0 := m0, T0 := 290, K := 1, K_T := 1, fdis := 1e-6, t_hyd := 0, lag_time := lag,
+    nb0 := 0, lambda_1 := 0, nbe := 0, integrate := false, sim_stored := false, farfield := false,
+    tp := 0, xp := 0, yp := 0, zp := 0, exit := none }
+
+/-- SingleParticle(wFluid, [1e-6, 1e-6], 290., lag_time=False) -/
+noncomputable def wP : Particle ℝ := wBase (.fluid wFluid) [1e-6, 1e-6] false
+
+/-- SingleParticle(InsolubleParticle(True, False, rho_p=900., k_bio=1e-5, t_bio=50., fp_type=0), [1e-5], 290.) -/
+noncomputable def wI : Particle ℝ := wBase (.insol ⟨true, false, 900, 30, 7e-4, 2.9e-9, 1e-5, 50, 0⟩) [1e-5] true
+
 
 end TamocV.Lemmas.C18
